@@ -348,7 +348,7 @@ pub enum Case {
     Chain(Chain),
 }
 
-fn body(c: &Case) -> Result<(), String> {
+pub fn body(c: &Case) -> Result<(), String> {
     match c {
         Case::Seq(s) => seq_body(s),
         Case::Count(x) => c15::body(x),
@@ -356,7 +356,7 @@ fn body(c: &Case) -> Result<(), String> {
     }
 }
 
-fn cfg_of(_: &Case) -> Cfg {
+pub fn cfg_of(_: &Case) -> Cfg {
     Cfg { sched: true, fake_sndbuf: Some(4608), ..Default::default() }
 }
 
